@@ -1066,6 +1066,9 @@ impl Server {
                 // CopyInResponse: copy is starting from client to server.
                 'G' => {
                     self.in_copy_mode = true;
+                    // The server now waits for CopyData from the client; rows of an earlier
+                    // statement in the same query must not keep us reading from the server.
+                    self.data_available = false;
                     break;
                 }
 
